@@ -274,6 +274,12 @@ def exclusive_helpers(m, mods, allowed):
         for f in m.functions:
             if f.qualname in ext or f.module.name == ABC_MOD:
                 continue
+            if f.parent is not None:
+                # a function defined inside a function is part of it (it cannot be named from anywhere else)
+                if f.parent.qualname in ext:
+                    ext.add(f.qualname)
+                    changed = True
+                continue
             if not f.name.startswith("_") or (f.name.startswith("__") and f.name.endswith("__")):
                 continue
             r = refs.get(f.name)
